@@ -6,6 +6,34 @@ import copy
 from harness import gen, ref, tycorr, tyoracle, vlib
 
 
+def short_tupleu(t, d, fam, depth=0) -> bool:
+    """is there a tuple-with-unpacked-segment position whose input has fewer items than its fixed head + tail
+    (negative indices then wrap around and an item is read twice: known finding C03/unpacked-tuple-short-input)"""
+    if depth > 12:
+        return False
+    k = t.kind
+    if k == "tupleu":
+        if isinstance(d, (list, tuple, str)):
+            np_, mode, nm = t.extra
+            fixed = len(t.args) - (nm if mode == "var" else 0)
+            if len(d) < fixed:
+                return True
+        return False
+    if k in ("list", "seq", "deque", "tuplevar", "set", "frozenset") and isinstance(d, (list, tuple, str, dict)):
+        return any(short_tupleu(t.args[0], x, fam, depth + 1) for x in d)
+    if k == "tuplefix" and isinstance(d, (list, tuple, str)):
+        return any(short_tupleu(a, x, fam, depth + 1) for a, x in zip(t.args, d))
+    if k in ("dict", "mapping", "ordereddict") and isinstance(d, dict):
+        return any(short_tupleu(t.args[1], x, fam, depth + 1) for x in d.values())
+    if k == "opt":
+        return d is not None and short_tupleu(t.args[0], d, fam, depth + 1)
+    if k in ("data", "td") and isinstance(d, dict):
+        return any(f.name in d and short_tupleu(f.ty, d[f.name], fam, depth + 1) for f in fam.get(t.name).fields)
+    if k == "nt" and isinstance(d, (list, tuple, str)):
+        return any(short_tupleu(f.ty, x, fam, depth + 1) for f, x in zip(fam.get(t.name).fields, d))
+    return False
+
+
 def run(ctx: vlib.Ctx):
     from mashumaro.codecs.basic import BasicDecoder, BasicEncoder
 
@@ -63,7 +91,9 @@ def run(ctx: vlib.Ctx):
                     ctx.fail(f"{gen.py_ann(t)} <- {gen.py_src(d0)[:160]}: {what}",
                              {"entry": "codec_decode", "source": fam.source(), "type": gen.py_ann(t), "input_src": gen.py_src(d0),
                               "observed": ("ok:" + gen.py_src(got[1])) if got[0] == "ok" else "exc:" + got[1],
-                              "expected": ("ok:" + gen.py_src(exp[1])) if exp[0] == "ok" else "exc:*"}, {"kind": "decode-ref"})
+                              "expected": ("ok:" + gen.py_src(exp[1])) if exp[0] == "ok" else "exc:*"},
+                             {"kind": "unpacked-tuple-short-input"} if (got[0] == "ok" and exp[0] != "ok" and "too few items" in exp[1]
+                                                                        and short_tupleu(t, d0, fam)) else {"kind": "decode-ref"})
         fam.dispose()
 
 
